@@ -95,4 +95,51 @@ example : build [.stag "r".toList [("xmlns".toList, "urn:a".toList), ("xmlns:ns0
     = some (.tag "urn:a" "r" [⟨"urn:a", "k", "1".toList⟩, ⟨"urn:b", "j", "2".toList⟩]
               [.text "ab".toList, .tag "urn:b" "e" [] []]) := by rfl
 
+/-! ## totality
+
+`c02_serialize_roundtrip` assumes that prefix collection returned a map.  With the size bound of
+`c13_collect_total` (distinct namespaces of the tree plus entries of the caller's mapping at most
+`65536 + 2`) it always does, and so the whole `serialize` call succeeds. -/
+
+/-- **`TagNode.serialize()` yields an output**: for every tree, every accepted caller mapping, every
+    iteration order of the namespace sets, under the size bound of `c13_collect_total`.  (Needs neither
+    `Serializable` nor a tag node as root: the serializer also writes what cannot be read back.) -/
+theorem c02_serialize_total (nsmap : Dict) (hn : NsMapOk nsmap) (root : Node)
+    (orders : List (List String)) (ho : ordersValid root orders = true)
+    (hsmall : (dedup (treeNamespaces root)).length + nsmap.length ≤ 65538) :
+    ∃ s, serialize nsmap root orders = .ok s := by
+  obtain ⟨m, hm, hok⟩ := c13_collect_total_ok nsmap hn root orders ho hsmall
+  obtain ⟨toks, ht⟩ := c02_emit_total nsmap m root hok
+  exact ⟨render toks, by simp only [serialize, hm, ht]⟩
+
+/-- **serialize, then read back — without assuming a successful run**: for every tree the serializer
+    can write, every accepted caller mapping and every iteration order of the namespace sets (size
+    bound as above), `serialize` returns the rendering of tokens that are rebuilt into the original
+    tree (adjacent text merged, empty text dropped) -/
+theorem c02_serialize_roundtrip_total (nsmap : Dict) (hn : NsMapOk nsmap) (root : Node)
+    (htag : root.isTag = true) (hs : Serializable root)
+    (orders : List (List String)) (ho : ordersValid root orders = true)
+    (hsmall : (dedup (treeNamespaces root)).length + nsmap.length ≤ 65538) :
+    ∃ toks, serialize nsmap root orders = .ok (render toks) ∧ build toks = some (normalize root) := by
+  obtain ⟨m, hm⟩ := c13_collect_total nsmap hn root orders ho hsmall
+  obtain ⟨toks, ht, hb⟩ := c02_serialize_roundtrip nsmap hn root htag hs orders ho m hm
+  exact ⟨toks, by simp only [serialize, hm, ht], hb⟩
+
+/-- non-vacuity: the hypotheses hold for a tree with three namespaces and a caller mapping … -/
+example : ∃ toks, serialize [("xml", Gen.xmlNamespace), ("xmlns", Gen.xmlnsNamespace), ("b", "urn:b")]
+      (.tag "urn:a" "r" [⟨"urn:c", "k", "1".toList⟩] [.text "x".toList, .tag "urn:b" "e" [] []])
+      [["urn:c", "urn:a"], ["urn:b"]] = .ok (render toks) ∧
+    build toks = some (normalize
+      (.tag "urn:a" "r" [⟨"urn:c", "k", "1".toList⟩] [.text "x".toList, .tag "urn:b" "e" [] []])) :=
+  c02_serialize_roundtrip_total _
+    ⟨by decide, by decide, by decide, by decide⟩ _ rfl
+    (by simp [Serializable, SerializableList]; decide) _ (by decide) (by decide)
+
+/-- … and this is what comes out -/
+example : serialize [("xml", Gen.xmlNamespace), ("xmlns", Gen.xmlnsNamespace), ("b", "urn:b")]
+      (.tag "urn:a" "r" [⟨"urn:c", "k", "1".toList⟩] [.text "x".toList, .tag "urn:b" "e" [] []])
+      [["urn:c", "urn:a"], ["urn:b"]]
+    = .ok "<r xmlns=\"urn:a\" xmlns:b=\"urn:b\" xmlns:ns0=\"urn:c\" ns0:k=\"1\">x<b:e/></r>".toList := by
+  rfl
+
 end Delb.Ser
